@@ -5,6 +5,10 @@
 //	setqos a=<ip8hex> down=<bps> up=<bps> burst=<n> prio=<n>
 //	                                                 => ok [e=<key>:<val>] [i=<key>:<val>] | err …
 //	rmqos a=<ip8hex>                                 => ok [e-=<key>] [i-=<key>]
+//	defpolicy <name> <down> <up> <burst> <prio>      => ok | err …          radius.PolicyManager.AddPolicy (defines or REdefines)
+//	rmpolicy <name>                                  => ok                  PolicyManager.RemovePolicy
+//	setpolicy a=<ip8hex> <name>                      => ok [e=…] [i=…] | err policy_not_found:_<name>   Manager.SetSubscriberPolicy
+//	count                                            => <n>                 Manager.GetSubscriberCount
 //	raw <e|i> <keyhex> <valhex>                      => ok | err …          (entry put directly, any bucket state)
 //	clock <ns>                                       => ok
 //	pkt <e|i> <hexframe> <skblen>                    => <ret> [prio=N] [k=<keyhex>:<h|m>] | FAULT …
@@ -33,6 +37,7 @@ import (
 	"github.com/cilium/ebpf"
 	"github.com/cilium/ebpf/rlimit"
 	"github.com/codelaboratoryltd/bng/pkg/qos"
+	"github.com/codelaboratoryltd/bng/pkg/radius"
 	"go.uber.org/zap"
 )
 
@@ -41,6 +46,7 @@ type comp struct{}
 type run struct {
 	c            *hx.CRunner
 	mgr          *qos.Manager
+	pm           *radius.PolicyManager
 	egress       *ebpf.Map
 	ingress      *ebpf.Map
 	stats        *ebpf.Map
@@ -114,7 +120,8 @@ func (r *run) init() string {
 	clearMap(kEgress)
 	clearMap(kIngress)
 	r.egress, r.ingress, r.stats = kEgress, kIngress, kStats
-	mgr, err := qos.NewManager(qos.ManagerConfig{Interface: "verif0"}, nil, zap.NewNop())
+	r.pm = radius.NewPolicyManager()
+	mgr, err := qos.NewManager(qos.ManagerConfig{Interface: "verif0"}, r.pm, zap.NewNop())
 	if err != nil {
 		return "err " + err.Error()
 	}
@@ -262,14 +269,28 @@ func (r *run) Do(op string) string {
 				}
 				ip = net.IPv4(b[0], b[1], b[2], b[3])
 			case "down":
-				q.DownloadBPS, _ = strconv.ParseUint(v, 10, 64)
+				n, err := strconv.ParseUint(v, 10, 64)
+				if err != nil {
+					return "badop"
+				}
+				q.DownloadBPS = n
 			case "up":
-				q.UploadBPS, _ = strconv.ParseUint(v, 10, 64)
+				n, err := strconv.ParseUint(v, 10, 64)
+				if err != nil {
+					return "badop"
+				}
+				q.UploadBPS = n
 			case "burst":
-				n, _ := strconv.ParseUint(v, 10, 32)
+				n, err := strconv.ParseUint(v, 10, 32)
+				if err != nil {
+					return "badop"
+				}
 				q.BurstBytes = uint32(n)
 			case "prio":
-				n, _ := strconv.ParseUint(v, 10, 8)
+				n, err := strconv.ParseUint(v, 10, 8)
+				if err != nil {
+					return "badop"
+				}
 				q.Priority = uint8(n)
 			default:
 				return "badop"
@@ -295,6 +316,52 @@ func (r *run) Do(op string) string {
 			return strings.Join(append([]string{"err", errText(err)}, toks...), " ")
 		}
 		return strings.Join(append([]string{"ok"}, toks...), " ")
+	case "defpolicy":
+		if len(t) != 6 {
+			return "badop"
+		}
+		down, e1 := strconv.ParseUint(t[2], 10, 64)
+		up, e2 := strconv.ParseUint(t[3], 10, 64)
+		burst, e3 := strconv.ParseUint(t[4], 10, 32)
+		prio, e4 := strconv.ParseUint(t[5], 10, 8)
+		if e1 != nil || e2 != nil || e3 != nil || e4 != nil {
+			return "badop"
+		}
+		if err := r.pm.AddPolicy(&radius.QoSPolicy{Name: t[1], DownloadBPS: down, UploadBPS: up, BurstSize: uint32(burst), Priority: uint8(prio)}); err != nil {
+			return "err " + errText(err)
+		}
+		return "ok"
+	case "rmpolicy":
+		if len(t) != 2 {
+			return "badop"
+		}
+		r.pm.RemovePolicy(t[1])
+		return "ok"
+	case "setpolicy":
+		if len(t) != 3 {
+			return "badop"
+		}
+		k, v := kv(t[1])
+		b, err := hex.DecodeString(v)
+		if k != "a" || err != nil || len(b) != 4 {
+			return "badop"
+		}
+		be := r.writeBack("e")
+		bi := r.writeBack("i")
+		err = r.mgr.SetSubscriberPolicy(net.IPv4(b[0], b[1], b[2], b[3]), t[2])
+		toks := append(r.sync("e", be), r.sync("i", bi)...)
+		if r.kernelFailed != "" {
+			return "err kernel " + r.kernelFailed
+		}
+		if err != nil {
+			return strings.Join(append([]string{"err", errText(err)}, toks...), " ")
+		}
+		return strings.Join(append([]string{"ok"}, toks...), " ")
+	case "count":
+		if len(t) != 1 {
+			return "badop"
+		}
+		return strconv.Itoa(r.mgr.GetSubscriberCount())
 	case "raw":
 		if len(t) != 4 || (t[1] != "e" && t[1] != "i") {
 			return "badop"
@@ -732,10 +799,79 @@ func genBacklogged(r *rand.Rand, long bool) []string {
 	return seq
 }
 
+// the whole control-plane path: policies defined, REdefined and removed, applied by name or by value, removed,
+// re-applied without a remove in between, in arbitrary order, with packets in both directions after every step
+var polNames = []string{"guest", "gold", "biz"}
+
+func genControl(r *rand.Rand) []string {
+	seq := []string{"new"}
+	clock := pickClock(r) >> 2
+	seq = append(seq, fmt.Sprintf("clock %d", clock))
+	someRate := uint64(1000000)
+	probe := func(ip [4]byte) {
+		for _, d := range []string{"e", "i"} {
+			clock = adv(clock, pickGap(r, someRate)%5000000000)
+			seq = append(seq, fmt.Sprintf("clock %d", clock))
+			seq = append(seq, fmt.Sprintf("pkt %s %s %d", d, subFrame(d, ip, r), pickLen(r)))
+		}
+	}
+	defpol := func(name string) {
+		down, up := pickRate(r), pickRate(r)
+		someRate = down | 8
+		burst := uint32(0)
+		if r.Intn(2) == 0 {
+			burst = pickBurst(r)
+		}
+		seq = append(seq, fmt.Sprintf("defpolicy %s %d %d %d %d", name, down, up, burst, r.Intn(8)))
+	}
+	steps := 12 + r.Intn(30)
+	for i := 0; i < steps; i++ {
+		ip := ips[r.Intn(3)]
+		a := hex.EncodeToString(ip[:])
+		switch x := r.Intn(100); {
+		case x < 22:
+			defpol(hx.Pick(r, polNames))
+		case x < 50:
+			seq = append(seq, "setpolicy a="+a+" "+hx.Pick(r, polNames))
+			probe(ip)
+		case x < 60: // redefine, then re-apply the same name to a subscriber without removing it first
+			name := hx.Pick(r, polNames)
+			defpol(name)
+			seq = append(seq, "setpolicy a="+a+" "+name)
+			probe(ip)
+			defpol(name)
+			seq = append(seq, "setpolicy a="+a+" "+name)
+			probe(ip)
+		case x < 70:
+			burst := uint32(0)
+			if r.Intn(2) == 0 {
+				burst = pickBurst(r)
+			}
+			seq = append(seq, fmt.Sprintf("setqos a=%s down=%d up=%d burst=%d prio=%d", a, pickRate(r), pickRate(r), burst, r.Intn(8)))
+			probe(ip)
+		case x < 78:
+			seq = append(seq, "rmqos a="+a)
+			probe(ip)
+		case x < 83:
+			seq = append(seq, "rmpolicy "+hx.Pick(r, polNames))
+		case x < 88:
+			seq = append(seq, "count")
+		default:
+			probe(ip)
+		}
+	}
+	return seq
+}
+
 func (comp) Gen(r *rand.Rand, tier string, emit func([]string)) {
-	nMgr, nRaw, nBack, nLong := 180, 260, 120, 15
+	nMgr, nRaw, nBack, nLong := 150, 240, 110, 15
+	nCtl := 120
 	if tier == "thorough" {
 		nMgr, nRaw, nBack, nLong = 4000, 6000, 2500, 300
+		nCtl = 3000
+	}
+	for i := 0; i < nCtl; i++ {
+		emit(genControl(r))
 	}
 	for i := 0; i < nMgr; i++ {
 		emit(genManager(r))
